@@ -7,7 +7,7 @@ extern u32 ghost_mmio_reads, ghost_mmio_writes; extern u16 ghost_mmio_addr, ghos
 
 /* Program word p is bytes 2p, 2p+1 (little endian); data word a of bank z is the word at 0x20000 + 0x10000*z + a (default paging mode) */
 static inline u32 spec_program_word(u32 p) { return p; }
-static inline u32 spec_data_word(u16 a, u16 z) { return 0x20000u + 0x10000u * z + a; }
+static inline u32 spec_data_word(u16 a, u16 z) { return 0x20000u + ((u32)z << 16) + a; }   /* 0x10000 * z, written as a shift */
 static inline u32 spec_data_word_a32(u32 a) { return 0x20000u + (a & 0x1FFFFu); }
 static inline bool spec_in_mmio(u16 a, u16 base) { return a >= base && (u32)a < (u32)base + 0x800u; }
 static inline u16 spec_mmio_offset(u16 a, u16 base) { return (u16)((a - base) & 0x7FF); }
